@@ -666,7 +666,8 @@ class Model:
         agent_ids = self.agent_type_map[agent_type]
 
         for agent_id in agent_ids:
-            if self.agents[agent_id].state == state:
+            # agent ids are not positions in self.agents once an agent has been deleted or the agents have been reconfigured
+            if self.agent(agent_id).state == state:
                 agent_count += 1
 
         return agent_count
